@@ -73,6 +73,13 @@ pub fn usize_to_f64(x: usize) -> (r: f64)         // rule R2: x as f64
 pub fn f64_infinity() -> (r: f64)                 // rule R4: f64::INFINITY
     ensures r == spec_f64_infinity()
 { f64::INFINITY }
+pub uninterp spec fn spec_f64_const(name: int) -> f64;
+#[verifier::external_body] #[allow(non_snake_case)] pub fn f64_const_EPSILON() -> (r: f64) ensures r == spec_f64_const(1) { f64::EPSILON }       // rule R20
+#[verifier::external_body] #[allow(non_snake_case)] pub fn f64_const_MAX() -> (r: f64) ensures r == spec_f64_const(2) { f64::MAX }
+#[verifier::external_body] #[allow(non_snake_case)] pub fn f64_const_MIN() -> (r: f64) ensures r == spec_f64_const(3) { f64::MIN }
+#[verifier::external_body] #[allow(non_snake_case)] pub fn f64_const_MIN_POSITIVE() -> (r: f64) ensures r == spec_f64_const(4) { f64::MIN_POSITIVE }
+#[verifier::external_body] #[allow(non_snake_case)] pub fn f64_const_NAN() -> (r: f64) ensures r == spec_f64_const(5) { f64::NAN }
+#[verifier::external_body] #[allow(non_snake_case)] pub fn f64_const_NEG_INFINITY() -> (r: f64) ensures r == spec_f64_const(6) { f64::NEG_INFINITY }
 
 // f64 library methods: deterministic but otherwise UNINTERPRETED (so that code using them is accepted by the front end and
 // any obligation that depends on their value fails instead of the unit becoming undecided)
